@@ -573,7 +573,7 @@ class Exe:
             o.meta['decl'] = decl
             self.local_objs[did] = o
             # constant globals with initialisers: materialise lazily at first use
-            o.meta['const_init'] = 'const' in decl['type']['qualType'] and 'inner' in decl
+            o.meta['const_init'] = ('const' in decl['type']['qualType'] and 'inner' in decl) or self.tu.read_only_static(decl)
         o = self.local_objs[did]
         if o.meta.get('const_init') and not o.meta.get('inited'):
             o.meta['inited'] = True
@@ -1178,7 +1178,9 @@ class Exe:
 
     def _ev_AtomicExpr(self, n, st):
         # __atomic_fetch_add(ptr, val, order): modelled by its contract (assumed: linearizable)
-        nm = n.get('name', '')
+        nm = self.tu.atomic_name(n['id'])
+        if nm not in ('__atomic_fetch_add', '__atomic_add_fetch', '__atomic_load_n', '__c11_atomic_fetch_add', '__c11_atomic_load'):
+            raise FrontEndError('atomic builtin %s is not modelled' % nm)
         ops = n['inner']
         self.assumed.add('__atomic builtins are linearizable read-modify-write')
         p = self._ev(ops[0], st)
@@ -1190,8 +1192,9 @@ class Exe:
             hook = self.hooks.get('__atomic_fetch_add')
             if hook:
                 return hook(self, st, n, tgt, old, vals[1])
-            self.store(tgt, self.sem.binop('+', old, vals[1], tgt.ct), st, n)
-            return old
+            new = self.sem.binop('+', old, vals[1], tgt.ct)
+            self.store(tgt, new, st, n)
+            return new if nm == '__atomic_add_fetch' else old
         if len(vals) == 1:      # load
             return old
         raise FrontEndError('atomic expression shape')
